@@ -337,3 +337,36 @@ func VH_C07_clustered_stop() {
 	vrtAssert(sys.status == stop, "status-is-stopped")
 	vrtAssert(n.quartz.Stopped, "scheduler-stopped")
 }
+
+// VH_C18_islands: two groups that do not know each other yet. s2 (seeds s1 and
+// s2; s1 is not up) bootstraps and b2 joins through it; then s1 (its own seed)
+// starts. No fault is involved: the configured seed address is the only path
+// between the groups. After a bounded number of rounds all three hold the same
+// membership and agree on one leader.
+func VH_C18_islands() {
+	a1, a2, a3 := "127.0.0.1:7001", "127.0.0.1:7002", "127.0.0.1:7003"
+	ids := []string{"id1", "id2", "id3"}
+	cl := &vhCluster{nodes: []*vhNode{nil, nil, nil}}
+	cl.startNode(1, a2, "id2", []string{a1, a2})
+	vrtYield()
+	cl.startNode(2, a3, "id3", []string{a2})
+	vrtYield()
+	run := func(n int) {
+		for r := 0; r < n; r++ {
+			vrtAdvance(time.Second)
+			for _, nd := range cl.nodes {
+				if nd != nil {
+					nd.fire(cluster.SchedRefGossip)
+					vrtYield()
+				}
+			}
+			vrtYield()
+		}
+	}
+	run(2)
+	cl.startNode(0, a1, "id1", []string{a1})
+	vrtYield()
+	run(4)
+	cl.assertConverged(ids, nil)
+	vrtReach("islands-merged")
+}
